@@ -1,0 +1,21 @@
+//go:build verif
+
+package min
+
+// Contracts for uda/min (C23), checked by /verif/govc. Compiled only with -tags=verif.
+
+//@ func (*@/utils/functions.ArgumentMap).GetMappedColumns
+//@ trusted "the argument map was validated when the aggregate was created (New calls argMap.Validate): a required column has at least one mapped user column"
+//@ pure
+//@ ensures len(result) >= 1
+
+//@ func (*Min).Accum
+//@ props C23
+//@ assumes #pkgvar: len(requiredColumns) >= 1
+//@ loop 0 invariant #idx: 0 <= iter0 && iter0 <= len(inputCol) && m.IsInitialized
+//@ loop 0 invariant #lower: forall(k, 0, iter0, m.Min <= inputCol[k])
+//@ loop 0 invariant #attained: (old(m.IsInitialized) && m.Min == old(m.Min)) || existsint(a, pattern(mem(inputCol)[a]), base(inputCol) <= a && a < base(inputCol)+len(inputCol) && m.Min == mem(inputCol)[a])
+//@ loop 0 invariant #notAbove: old(m.IsInitialized) ==> m.Min <= old(m.Min)
+//@ exit #lower: result1 == nil && len(inputCol) > 0 ==> forall(k, 0, len(inputCol), m.Min <= inputCol[k])
+//@ exit #attained: result1 == nil && len(inputCol) > 0 ==> ((old(m.IsInitialized) && m.Min == old(m.Min)) || existsint(a, pattern(mem(inputCol)[a]), base(inputCol) <= a && a < base(inputCol)+len(inputCol) && m.Min == mem(inputCol)[a]))
+//@ exit #notAbove: result1 == nil && len(inputCol) > 0 && old(m.IsInitialized) ==> m.Min <= old(m.Min)
